@@ -684,7 +684,7 @@ def world_script(world, res, scale=1, custom_classifier=False):
         if e[0] == 'finish':
             fails.setdefault(e[1], {})[e[2]] = e[3]
     lines = ['builder max_concurrent=%s%s%s' % ('none' if world.limit is None else world.limit, ' fail_fast=1' if world.fail_fast else '',
-                                             ' which=exclusive' if custom_classifier else '')]
+                                             ' which=name_st' if custom_classifier == 'name' else ' which=exclusive' if custom_classifier else '')]
     feats = sorted(set(s.feature for s in world.scens))
     beh = []
     late_of = dict((fi, late) for late, fi in (world.parser or []))
@@ -700,7 +700,8 @@ def world_script(world, res, scale=1, custom_classifier=False):
         def emit(s, ind):
             tags = []
             if s.ty == 'S':
-                tags.append('@exclusive' if custom_classifier else '@serial')
+                if custom_classifier != 'name':         # (the name classifier needs no tag at all: `s` and `t` are serial)
+                    tags.append('@exclusive' if custom_classifier else '@serial')
             if s.budget is not None:
                 tags.append('@retry(%d)%s' % (s.budget, '.after(300ms)' if s.delay else ''))
             if tags:
@@ -822,9 +823,9 @@ def confirm_native(chk, o, prop, name):
     os.makedirs(d, exist_ok=True)
     tried = []
     has_serial = any(s_.ty == 'S' for s_ in world.scens)
-    variants = [(sc_, False) for sc_ in (1, 2, 5, 25)] + ([(sc_, True) for sc_ in (1, 5)] if has_serial else [])
+    variants = [(sc_, False) for sc_ in (1, 2, 5, 25)] + ([(sc_, True) for sc_ in (1, 5)] + [(sc_, 'name') for sc_ in (1, 5)] if has_serial else [])
     for scale, custom in variants:
-        path = os.path.join(d, '%s-execute-%s-x%d%s.script' % (prop, name.replace('<', 'le').replace('=', ''), scale, '-custom-classifier' if custom else ''))
+        path = os.path.join(d, '%s-execute-%s-x%d%s.script' % (prop, name.replace('<', 'le').replace('=', ''), scale, '-name-classifier' if custom == 'name' else '-custom-classifier' if custom else ''))
         r, out = replay.run_script('\n'.join(['mode runner'] + world_script(world, res, scale, custom)) + '\n', path, timeout=60)
         chk.replays += 1
         if r is None:
